@@ -35,6 +35,25 @@ theorem Inv.of_same {s s' : State} (h : Inv s) (hq : s'.queue = s.queue) (ho : s
   · intro o ob; rw [ho]; exact h.dirty o ob
   · intro o; rw [hq, hm]; exact h.flag o
 
+/-- an operation that leaves the objects and the queue alone and can only SET `cache.modified` keeps the invariant -/
+theorem Inv.of_frame {s s' : State} (h : Inv s) (hq : s'.queue = s.queue) (ho : s'.objs = s.objs)
+    (hm : s.modified = true → s'.modified = true) : Inv s' := by
+  have hk : ∀ o, s'.kindAt o = s.kindAt o := by intro o; simp [State.kindAt, ho]
+  refine ⟨?_, ?_, ?_, ?_⟩
+  · intro o; rw [hq, hk]; exact h.mem_iff o
+  · simp only [pendingList, hq]; exact h.nodup
+  · intro o ob; rw [ho]; exact h.dirty o ob
+  · intro o ho'; rw [hq] at ho'; exact hm (h.flag o ho')
+
+/-- a many-to-many change touches neither objects, queue, trace nor `saved_objects` -/
+theorem applyLink_frame (s s' : State) (a b : Nat) (add : Bool) (h : applyLink s a b add = .ok s') :
+    s'.trace = s.trace ∧ s'.saved = s.saved ∧ s'.queue = s.queue ∧ s'.objs = s.objs ∧ (s.modified = true → s'.modified = true) := by
+  unfold applyLink at h
+  repeat' split at h
+  all_goals first
+    | cases h
+    | (injection h with h; subst h; simp)
+
 /-- assigning an attribute of an object that is not pending (loaded / inserted / updated): it becomes 'modified' and is queued -/
 theorem modify_clean (s : State) (o : Nat) (ob : Obj) (hob : s.objs[o]? = some ob) (hnk : kindOf ob.status = none) :
     ({ (s.setObj o ⟨.modified, ob.dirty + 1⟩) with queue := s.queue ++ [some o], modified := true } : State).trace = s.trace ∧
@@ -157,6 +176,14 @@ theorem applyOp_spec (s s' : State) (op : HOp) (h : applyOp s op = .ok s') :
               apply List.getElem?_eq_none; simp; omega
             rw [h1] at hob; cases hob
       · intro o _; rfl
+  | link a b =>
+    obtain ⟨t, v, q, o, m⟩ := applyLink_frame s s' a b true h
+    have hk : ∀ p, s'.kindAt p = s.kindAt p := by intro p; simp [State.kindAt, o]
+    exact ⟨t, v, ⟨[], by simp [q]⟩, fun p k hp => by rw [hk]; exact hp, fun hi => hi.of_frame q o m⟩
+  | unlink a b =>
+    obtain ⟨t, v, q, o, m⟩ := applyLink_frame s s' a b false h
+    have hk : ∀ p, s'.kindAt p = s.kindAt p := by intro p; simp [State.kindAt, o]
+    exact ⟨t, v, ⟨[], by simp [q]⟩, fun p k hp => by rw [hk]; exact hp, fun hi => hi.of_frame q o m⟩
   | modify o =>
     simp only [applyOp] at h
     cases hob : s.objs[o]? with
@@ -454,6 +481,18 @@ theorem applyOp_no_limit (s : State) (op : HOp) (e : Err) (h : applyOp s op = .e
   cases op with
   | read o => simp [applyOp] at h
   | create => simp [applyOp] at h
+  | link a b =>
+    simp only [applyOp] at h; unfold applyLink at h
+    repeat' split at h
+    all_goals first
+      | cases h
+      | (injection h with h; subst h; rfl)
+  | unlink a b =>
+    simp only [applyOp] at h; unfold applyLink at h
+    repeat' split at h
+    all_goals first
+      | cases h
+      | (injection h with h; subst h; rfl)
   | modify o =>
     simp only [applyOp] at h
     cases hob : s.objs[o]? with
